@@ -306,6 +306,34 @@ func (t *tr) isConst(e ast.Expr) (constant.Value, bool) {
 }
 
 // typeOf infers the type of a non-constant expression (nil if it is an untyped constant).
+// whitelistedCall: a call of a plain (receiver-less) function of the same package that is itself a
+// whitelisted `func` item is emitted as a call of that item's Lean definition (never inlined, never simplified).
+// Returns the Lean name and the declared result type.
+func (t *tr) whitelistedCall(x *ast.CallExpr) (string, Type, bool) {
+	id, ok := x.Fun.(*ast.Ident)
+	if !ok {
+		return "", Type{}, false
+	}
+	for _, it := range items {
+		if it.Kind == "func" && it.Recv == "" && it.Dir == t.p.dir && it.Func == id.Name {
+			fd := findFunc(t.p, "", id.Name)
+			if fd == nil || fd.Type.Results == nil || len(fd.Type.Results.List) != 1 {
+				return "", Type{}, false
+			}
+			rid, ok := fd.Type.Results.List[0].Type.(*ast.Ident)
+			if !ok {
+				return "", Type{}, false
+			}
+			rt, ok := t.p.lookupType(rid.Name)
+			if !ok {
+				return "", Type{}, false
+			}
+			return it.Name, rt, true
+		}
+	}
+	return "", Type{}, false
+}
+
 func (t *tr) typeOf(e ast.Expr) *Type {
 	if _, ok := t.isConst(e); ok {
 		// typed constants keep their type
@@ -359,6 +387,9 @@ func (t *tr) typeOf(e ast.Expr) *Type {
 			if id.Name == "len" {
 				return &Type{64, true, false}
 			}
+		}
+		if _, rt, ok := t.whitelistedCall(x); ok {
+			return &rt
 		}
 		t.fail(e, "unsupported call %s", exprText(t.p.fset, x.Fun))
 	case *ast.SelectorExpr:
@@ -455,6 +486,14 @@ func (t *tr) expr(e ast.Expr, want *Type) (string, Type) {
 				s, from := t.expr(x.Args[0], nil)
 				return conv(s, from, to), to
 			}
+		}
+		if name, rt, ok := t.whitelistedCall(x); ok {
+			out := "(" + name
+			for _, a := range x.Args {
+				as, _ := t.expr(a, nil)
+				out += " " + as
+			}
+			return out + ")", rt
 		}
 		t.fail(e, "unsupported call %s", exprText(t.p.fset, x.Fun))
 	case *ast.BinaryExpr:
